@@ -7,6 +7,13 @@ serves ``run(payload)`` requests by calling ``worker_main(rank, size, payload)``
 runs, the parent acts as the hub: a collective completes when every rank has posted its
 contribution; all values travel through pipes, i.e. are pickled.
 
+Collectives that cannot complete are an outcome of the code under test, not a failure of the harness: when
+every rank either waits in a collective or has returned and the waiting ones cannot be matched (some ranks
+returned or raised without taking part; ranks wait in different collectives; ranks wait in collectives of
+different cases of the batch) the hub *aborts* the waiting ranks -- the collective raises ``Exchange`` inside
+the code under test, the worker reports the case as raised -- and records the event in ``last_aborts``; the
+group stays in step and ``run`` returns normally.  A real MPI run would hang there.
+
 Robustness: every pipe read has a timeout; workers are daemonic, exit when the parent end closes or
 stays silent, and are terminated/killed/joined by ``close()`` (also registered with atexit).
 """
@@ -77,6 +84,7 @@ class RankGroup(object):
         self.procs = []
         self.dead = False
         self.collectives = 0
+        self.last_aborts = []
         ctx = mp.get_context('fork')
         _LIVE.append(self)
         for r in range(size):
@@ -106,13 +114,25 @@ class RankGroup(object):
         results = [None] * self.size
         done = [False] * self.size
         pending = {}
+        self.last_aborts = []
+
+        def abort(ranks, why):
+            if len(self.last_aborts) >= 50:
+                raise GroupFailure('more than 50 aborted collectives in one request (%s)' % why)
+            self.last_aborts.append(dict(ranks=sorted(ranks), why=why,
+                                         epoch=sorted(set(pending[r][4] for r in ranks))))
+            for r in sorted(ranks):
+                self.conns[r].send(('abort', why))
+                del pending[r]
         deadline = time.time() + self.timeout
         try:
             while not all(done):
                 active = [c for r, c in enumerate(self.conns) if not done[r] and r not in pending]
                 if not active:
-                    raise GroupFailure('unmatched collective: ranks %s wait, ranks %s returned' %
-                                       (sorted(pending), [r for r in range(self.size) if done[r]]))
+                    abort(list(pending), 'unmatched collective: ranks %s wait in %s, ranks %s returned without taking part' %
+                          (sorted(pending), sorted(set(m[1] for m in pending.values())),
+                           [r for r in range(self.size) if done[r]]))
+                    continue
                 ready = wait(active, timeout=max(0.0, deadline - time.time()))
                 if not ready:
                     raise GroupFailure('timeout after %ss (waiting for ranks %s)' %
@@ -132,10 +152,21 @@ class RankGroup(object):
                         pending[r] = msg
                     else:
                         raise GroupFailure('rank %d sent %r' % (r, msg[0]))
+                if pending and len(pending) + sum(done) == self.size:
+                    epochs = sorted(set(m[4] for m in pending.values()))
+                    if len(epochs) > 1:
+                        # ranks are in different cases of the batch: the ones that lag behind wait for ranks
+                        # that left that case without taking part
+                        lag = [r for r, m in pending.items() if m[4] == epochs[0]]
+                        abort(lag, 'unmatched collective: ranks %s wait in %s, the others left the case without taking part' %
+                              (sorted(lag), sorted(set(pending[r][1] for r in lag))))
+                        continue
                 if len(pending) == self.size:
                     kinds = set(m[1] for m in pending.values())
                     if len(kinds) != 1:
-                        raise GroupFailure('ranks entered different collectives: %s' % sorted(kinds))
+                        abort(list(pending), 'ranks entered different collectives: %s' %
+                              sorted((r, m[1]) for r, m in pending.items()))
+                        continue
                     kind = kinds.pop()
                     if kind == 'allgather':
                         vals = [pending[r][2] for r in range(self.size)]
@@ -151,8 +182,9 @@ class RankGroup(object):
                     self.collectives += 1
                     deadline = time.time() + self.timeout
                 elif pending and len(pending) + sum(done) == self.size:
-                    raise GroupFailure('unmatched collective: ranks %s wait in %s, the others returned' %
-                                       (sorted(pending), sorted(set(m[1] for m in pending.values()))))
+                    abort(list(pending), 'unmatched collective: ranks %s wait in %s, ranks %s returned without taking part' %
+                          (sorted(pending), sorted(set(m[1] for m in pending.values())),
+                           [r for r in range(self.size) if done[r]]))
         except GroupFailure:
             self.close()
             raise
